@@ -612,6 +612,26 @@ private:
         return true;
     }
 
+    // Returns an error response when a control token is configured and the request does not carry exactly it.
+    std::optional<ControlFields> check_control_token(const ControlFields& fields, std::string_view error_code) {
+        std::optional<std::string> control_token;
+        {
+            std::scoped_lock lock(node_mutex_);
+            control_token = node_.config().control_token;
+        }
+        if (!control_token.has_value()) {
+            return std::nullopt;
+        }
+        const auto token_it = fields.find("TOKEN");
+        if (token_it == fields.end()) {
+            return make_error(error_code, "Control token required", "Provide --control-token when invoking the CLI");
+        }
+        if (!constant_time_equal(*control_token, token_it->second)) {
+            return make_error(error_code, "Invalid control token", "Verify the shared secret configured on the daemon");
+        }
+        return std::nullopt;
+    }
+
     void accept_loop() {
     while (running_.load(std::memory_order_acquire)) {
             sockaddr_in client_addr{};
@@ -718,7 +738,7 @@ private:
         }
         if (command == "STOP") {
             metrics_.command_stop_requests_total.fetch_add(1, std::memory_order_relaxed);
-            handle_stop(client, remote_identity);
+            handle_stop(client, request, remote_identity);
             return;
         }
         if (command == "LIST") {
@@ -807,7 +827,15 @@ private:
                   std::move(log_fields));
     }
 
-    void handle_stop(NativeSocket client, const std::string& remote_identity) {
+    void handle_stop(NativeSocket client, const ParsedRequest& request, const std::string& remote_identity) {
+        if (auto denied = check_control_token(request.fields, "ERR_STOP_UNAUTHENTICATED")) {
+            log_event(StructuredLogger::Level::Warning,
+                      "control.command.stop",
+                      {{"remote", remote_identity}, {"status", "error"}, {"reason", "auth"}});
+            send_response(client, std::move(*denied), false);
+            return;
+        }
+
         const bool should_stop_transport = !transport_stopped_.exchange(true, std::memory_order_acq_rel);
 
         bool invoked_shutdown = false;
